@@ -515,13 +515,21 @@ func (dd *msgpipelineDelivery) BodyNonAtomic(ctx context.Context, c module.Statu
 func (dd msgpipelineDelivery) Commit(ctx context.Context) error {
 	dd.close()
 
+	var firstErr error
 	for _, delivery := range dd.deliveries {
+		if firstErr != nil {
+			// No point in Committing remaining deliveries, everything is
+			// broken already. They still have to be closed.
+			if err := delivery.Abort(ctx); err != nil {
+				dd.log.Debugf("delivery.Abort failure, Delivery object = %T: %v", delivery, err)
+			}
+			continue
+		}
 		if err := delivery.Commit(ctx); err != nil {
-			// No point in Committing remaining deliveries, everything is broken already.
-			return err
+			firstErr = err
 		}
 	}
-	return nil
+	return firstErr
 }
 
 func (dd *msgpipelineDelivery) close() {
